@@ -22,10 +22,14 @@ import (
 //	value-bp          Value.Pull with backpressure and a subscriber that keeps receiving: nothing is dropped, in
 //	                  order; while the subscriber does not receive, Set does not return (the writer waits)
 //	value-bp-timeout  (thorough) Value.Pull with backpressure never read: Set returns an error after ~5 s
+//	collection-stress / value-stress   free-running goroutines: one writer at full speed, one lossy
+//	                  subscriber receiving with random pauses (seeded): the received stream chains per id and,
+//	                  after a final fence, folds to List / ends with the last value written
 type latencyCase struct {
 	Kind string `json:"kind"` // "latency"
 	What string `json:"what"`
 	N    int    `json:"n"`
+	Seed int64  `json:"seed,omitempty"`
 }
 
 const promptBound = 2 * time.Second // "without waiting": generous bound on a loaded machine; expected µs (the alternative is blocking for good or for the 5 s send timeout)
@@ -40,6 +44,10 @@ func (c latencyCase) run(m *lib.Monitor) (maxLatency time.Duration) {
 		return c.valueBP(m)
 	case "value-bp-timeout":
 		return c.valueTimeout(m)
+	case "collection-stress":
+		return c.collectionStress(m)
+	case "value-stress":
+		return c.valueStress(m)
 	}
 	return 0
 }
@@ -292,18 +300,214 @@ func (c latencyCase) valueTimeout(m *lib.Monitor) (max time.Duration) {
 	return max
 }
 
+// collectionStress: real scheduling, real select nondeterminism. One writer only: concurrent writers
+// can publish out of commit order (property C03), which is not this property's subject.
+func (c latencyCase) collectionStress(m *lib.Monitor) (max time.Duration) {
+	r := lib.NewRand(c.Seed)
+	col := resource.NewCollection()
+	ctx, cancel := context.WithCancel(context.Background())
+	defer cancel()
+	ch := col.Pull(ctx)
+	ids := []string{"a", "b", "c"}
+	shadow := map[string]string{}
+	type op struct {
+		del bool
+		id  string
+		val string
+	}
+	var ops []op
+	for i := 1; i <= c.N; i++ {
+		id := ids[r.Intn(len(ids))]
+		if _, present := shadow[id]; present && r.Intn(4) == 0 {
+			ops = append(ops, op{del: true, id: id})
+			delete(shadow, id)
+		} else {
+			val := fmt.Sprintf("%s%d", id, i)
+			ops = append(ops, op{id: id, val: val})
+			shadow[id] = val
+		}
+	}
+	shadow["~"] = "f"
+	pauses := make([]time.Duration, 64)
+	for i := range pauses {
+		if r.Intn(3) > 0 {
+			pauses[i] = time.Duration(r.Intn(300)) * time.Microsecond
+		}
+	}
+	wpauses := make([]time.Duration, 61)
+	for i := range wpauses {
+		if r.Intn(2) == 0 {
+			wpauses[i] = time.Duration(r.Intn(200)) * time.Microsecond
+		}
+	}
+	werr := make(chan string, 1)
+	go func() {
+		for i, o := range ops {
+			if p := wpauses[i%len(wpauses)]; p > 0 {
+				time.Sleep(p)
+			}
+			t0 := time.Now()
+			var err error
+			if o.del {
+				_, err = col.Delete(o.id)
+			} else {
+				_, err = col.Update(o.id, wrapperspb.String(o.val), resource.WithCreateIfAbsent())
+			}
+			if d := time.Since(t0); d > max {
+				max = d
+			}
+			if err != nil {
+				werr <- err.Error()
+				return
+			}
+		}
+		if _, err := col.Add("~", wrapperspb.String("f")); err != nil {
+			werr <- err.Error()
+			return
+		}
+		werr <- ""
+	}()
+	view := map[string]string{}
+	n := 0
+	deadline := time.After(20 * time.Second)
+loop:
+	for {
+		select {
+		case ev := <-ch:
+			s := showChange(ev, false)
+			if !foldInto(view, s) {
+				m.Violate("C09/Collection/lossy/stress/old-value-chain", "under free-running scheduling a delivered change is not well formed at the subscriber's view", c, "well-formed at "+showView(view), s)
+			}
+			if ev.Id == "~" {
+				break loop
+			}
+			if p := pauses[n%len(pauses)]; p > 0 {
+				time.Sleep(p)
+			}
+			n++
+		case <-deadline:
+			m.Violate("C09/Collection/lossy/stress/latest-not-received", "the subscriber did not receive the last change within 20s", c, "fence event", showView(view))
+			break loop
+		}
+	}
+	select {
+	case e := <-werr:
+		if e != "" {
+			m.Violate("C09/Collection/lossy/stress/write-error", "a write failed", c, "nil", e)
+		}
+	case <-time.After(10 * time.Second):
+		m.Violate("C09/Collection/lossy/stress/writer-blocked", "the writer did not finish although the subscriber is lossy", c, "finished", "blocked")
+		return
+	}
+	if max > promptBound {
+		m.Violate("C09/Collection/lossy/stress/writer-waited", "a write waited for a slow lossy subscriber", c, "< "+promptBound.String(), max.String())
+	}
+	if a, b := showView(view), showView(shadow); a != b {
+		m.Violate("C09/Collection/lossy/stress/fold-differs", "the received changes fold to a different view than the collection holds", c, b, a)
+	}
+	m.Eval(fmt.Sprintf("collection-stress/%d/%d", c.N, c.Seed), n < c.N, nil)
+	m.Count(fmt.Sprintf("stress delivered/written ~%d%%", 10*(10*n/(c.N+1))))
+	return max
+}
+
+func (c latencyCase) valueStress(m *lib.Monitor) (max time.Duration) {
+	r := lib.NewRand(c.Seed)
+	v := resource.NewValue(resource.WithInitialValue(wrapperspb.String("v0")))
+	ctx, cancel := context.WithCancel(context.Background())
+	defer cancel()
+	ch := v.Pull(ctx)
+	pauses := make([]time.Duration, 64)
+	for i := range pauses {
+		if r.Intn(3) > 0 {
+			pauses[i] = time.Duration(r.Intn(300)) * time.Microsecond
+		}
+	}
+	last := fmt.Sprintf("v%d", c.N)
+	wpauses := make([]time.Duration, 61)
+	for i := range wpauses {
+		if r.Intn(2) == 0 {
+			wpauses[i] = time.Duration(r.Intn(200)) * time.Microsecond
+		}
+	}
+	werr := make(chan string, 1)
+	go func() {
+		for i := 1; i <= c.N; i++ {
+			if p := wpauses[i%len(wpauses)]; p > 0 {
+				time.Sleep(p)
+			}
+			t0 := time.Now()
+			_, err := v.Set(wrapperspb.String(fmt.Sprintf("v%d", i)))
+			if d := time.Since(t0); d > max {
+				max = d
+			}
+			if err != nil {
+				werr <- err.Error()
+				return
+			}
+		}
+		werr <- ""
+	}()
+	prev, n := -1, 0
+	got := ""
+	deadline := time.After(20 * time.Second)
+loop:
+	for {
+		select {
+		case ev := <-ch:
+			got = tokOf(ev.Value)
+			var k int
+			fmt.Sscanf(got, "v%d", &k)
+			if k <= prev {
+				m.Violate("C09/Value/lossy/stress/out-of-order", "received values are not in write order", c, fmt.Sprintf("> v%d", prev), got)
+			}
+			prev = k
+			if got == last {
+				break loop
+			}
+			if p := pauses[n%len(pauses)]; p > 0 {
+				time.Sleep(p)
+			}
+			n++
+		case <-deadline:
+			m.Violate("C09/Value/lossy/stress/latest-not-received", "the subscriber did not eventually receive the most recent value", c, last, got)
+			break loop
+		}
+	}
+	select {
+	case e := <-werr:
+		if e != "" {
+			m.Violate("C09/Value/lossy/stress/set-error", "Set failed with a slow lossy subscriber", c, "nil", e)
+		}
+	case <-time.After(10 * time.Second):
+		m.Violate("C09/Value/lossy/stress/writer-blocked", "the writer did not finish although the subscriber is lossy", c, "finished", "blocked")
+		return
+	}
+	if max > promptBound {
+		m.Violate("C09/Value/lossy/stress/writer-waited", "Set waited for a slow lossy subscriber", c, "< "+promptBound.String(), max.String())
+	}
+	m.Eval(fmt.Sprintf("value-stress/%d/%d", c.N, c.Seed), n < c.N, nil)
+	return max
+}
+
 func runLatency(f lib.Flags, res *lib.Result) {
-	mon := res.Monitor("writers-and-subscribers", "real Value/Collection with real Pull subscribers: with an idle lossy subscriber every Set/Update/Delete returns (bound 2s, latencies recorded) and on reading the subscriber gets the most recent value / a per-id chained stream folding to List; with backpressure Set does not return before the subscriber receives, and nothing is dropped or reordered while it keeps receiving; thorough: a never-read backpressured Pull makes Set return an error after ~5s; distinct = scenario")
+	mon := res.Monitor("writers-and-subscribers", "real Value/Collection with real Pull subscribers: with an idle lossy subscriber every Set/Update/Delete returns (bound 2s, latencies recorded) and on reading the subscriber gets the most recent value / a per-id chained stream folding to List; with backpressure Set does not return before the subscriber receives, and nothing is dropped or reordered while it keeps receiving; free-running stress (one writer at full speed, a lossy subscriber with seeded random pauses): the received stream chains per id / is in write order and ends, after a fence, in the collection's view / the last value; thorough: a never-read backpressured Pull makes Set return an error after ~5s; distinct = scenario and seed")
 	cases := []latencyCase{
 		{Kind: "latency", What: "value-idle", N: f.N(200, 2000)},
 		{Kind: "latency", What: "collection-idle", N: f.N(200, 2000)},
 		{Kind: "latency", What: "value-bp", N: f.N(100, 1000)},
+	}
+	for i := 0; i < f.N(10, 100); i++ {
+		cases = append(cases, latencyCase{Kind: "latency", What: "collection-stress", N: f.N(300, 1500), Seed: f.Seed*1000 + int64(i)})
+		cases = append(cases, latencyCase{Kind: "latency", What: "value-stress", N: f.N(300, 1500), Seed: f.Seed*1000 + int64(i)})
 	}
 	if f.Thorough() {
 		cases = append(cases, latencyCase{Kind: "latency", What: "value-bp-timeout", N: 1})
 	}
 	for _, c := range cases {
 		d := c.run(mon)
-		res.Extra["max_write_latency_us/"+c.What] = d.Microseconds()
+		key := "max_write_latency_us/" + c.What
+		if prev, ok := res.Extra[key].(int64); !ok || d.Microseconds() > prev {
+			res.Extra[key] = d.Microseconds()
+		}
 	}
 }
